@@ -591,6 +591,16 @@ def r176(facts, res):
         rounds = [h for h in loops if not any(h in loops[o] and o != h for o in loops)]
         rounds = [h for h in rounds if any(ib in loops[h] for _l, _c, ib, _hh, _inl in flags)]
         if len(rounds) != 1:
+            # the same loop condition spelled `while done.contains(&false)`: an outermost loop left exactly when no entry of a
+            # Vec<bool> is false
+            rounds = []
+            for bb, t in b.calls_named('contains'):
+                if len(t['args']) == 2 and 'bool' in (callee_of(t).get('self_ty') or ' '.join(callee_of(t).get('args') or [])):
+                    outer = [h2 for h2 in loops if bb in loops[h2] and not any(h2 in loops[o] and o != h2 for o in loops)]
+                    if outer and b.term(t['ret'])['k'] == 'switch' and any(x not in loops[outer[0]] for x in b.succs(t['ret'])):
+                        rounds.append(outer[0])
+            rounds = sorted(set(rounds))
+        if len(rounds) != 1:
             res.lost(R, 'cannot identify the round loop of %s' % name)
             continue
         h = rounds[0]
@@ -613,6 +623,20 @@ def r176(facts, res):
                     if st['k'] == 'assign' and st['lhs']['p'] == ['deref'] and 'use' in st['rv'] and st['rv']['use'].get('const', {}).get('int') == 1 \
                             and b.lty(st['lhs']['l']).startswith('&mut bool'):
                         e2 = True
+        # E2 as a collect: the done vector starts out as `rules.map(|r| has_path(r, r)).collect()`
+        if not e2:
+            for cb in facts.closures_of(b):
+                hp = cb.calls_named('has_path')
+                if len(hp) == 1 and len(hp[0][1]['args']) >= 3 and cb.lty(0) == 'bool':
+                    t = hp[0][1]
+                    r1 = cb.op_root(t['args'][1], stop_named=False)[0]
+                    r2 = cb.op_root(t['args'][2], stop_named=False)[0]
+                    rets = [p for p in Walker(cb, facts, max_paths=8).run() if p.end[0] == 'return']
+                    if r1 == r2 == 2 and rets and all(is_call(p.end[1], 'has_path') for p in rets):
+                        # its results are collected into a Vec<bool> before the round loop
+                        for bb, t2 in b.calls_named('collect'):
+                            if bb not in loops[h] and b.lty(t2['dest']['l']).startswith('alloc::vec::Vec<bool'):
+                                e2 = True
         if e1:
             res.ok(R, key, loc_of(b, h), 'the round loop also ends when a round changed nothing')
         elif e2:
@@ -644,6 +668,10 @@ def acc_roles(facts, b, accs):
                 continue
             for c, v in p.conds:
                 if isinstance(v, int) and c[0] in ('widen', 'uninit') and (c[3] if c[0] == 'widen' else c[1]) in flags:
+                    out.setdefault(acc, set()).add(v)
+                elif isinstance(v, int) and c[0] == 'widen' and len(c) > 4 and c[4] == ('const', 1) and b.lty(c[3]) == 'bool':
+                    # a bool that entered an inner loop as `true` and is tested after it: an "all .." summary, whatever it is called
+                    # and however it travelled here (e.g. out of an inlined helper in a tuple)
                     out.setdefault(acc, set()).add(v)
     return out
 
